@@ -5,6 +5,7 @@ import (
 	"os"
 	"strconv"
 	"sync"
+	"time"
 
 	"verif/mc/api"
 	"verif/mc/ct"
@@ -191,9 +192,18 @@ func init() {
 				res [shards]*SubResult
 			}
 			rounds := []*round{{tag: "verif_maps"}, {tag: "verif_maps"}, {tag: ""}}
-			for _, rd := range rounds {
+			end := SubDeadlineTime()
+			for ri, rd := range rounds {
 				if _, err := BuildTagged(rd.tag); err != nil {
 					return err
+				}
+				// the rounds share the wall-clock budget: each gets an equal part of what is left
+				if !end.IsZero() {
+					left := time.Until(end)
+					if left < 0 {
+						left = 0
+					}
+					SetSubDeadline(time.Now().Add(left / time.Duration(len(rounds)-ri)))
 				}
 				var wg sync.WaitGroup
 				errs := make([]error, shards)
@@ -226,6 +236,10 @@ func init() {
 				}
 				for ri := 1; ri < len(rounds); ri++ {
 					b := rounds[ri].res[s]
+					if a.Truncated || b.Truncated {
+						// a process that was stopped by the deadline has digested only a prefix: not comparable
+						continue
+					}
 					if fmt.Sprint(a.Digests) != fmt.Sprint(b.Digests) {
 						rep.Found = append(rep.Found, engine.Found{Scenario: "C12-processes", OpKind: "process-diff",
 							V: drv.Violation{Kind: "process-diff", Msg: fmt.Sprintf("shard %d: digest streams differ between two processes running the same enumeration (round 0 vs round %d, build tag %q):\n %v\n %v", s, ri, rounds[ri].tag, a.Digests, b.Digests)}})
